@@ -107,12 +107,18 @@ func init() {
 		last := Sub(hi, BVi(1, 64))
 		last2 := Sub(hi, BVi(2, 64))
 		small := And(SLe(n, BVi(1<<32, 64)), SLe(BVi(0, 64), lo), SLe(lo, BVi(1<<42, 64)))
-		return []*Term{
+		var frame []*Term
+		if row.Op == "store" {
+			// the sum depends only on row[lo..hi): a store outside that range does not change it
+			i := row.Args[1]
+			frame = append(frame, Implies(Or(SLt(i, lo), SLe(hi, i)), Eq(app, wsumApp(row.Args[0], lo, hi))))
+		}
+		return append(frame, []*Term{
 			Implies(SLe(hi, lo), Eq(app, BVi(0, 64))),
 			Implies(And(SLt(lo, hi), small, odd), Eq(app, Add(wsumApp(row, lo, last), Shl(ZExt(Select(row, last), 64), BVi(8, 64))))),
 			Implies(And(SLt(lo, hi), small, Not(odd)), Eq(app, Add(wsumApp(row, lo, last2), b16(last2)))),
 			Implies(And(SLe(lo, hi), small), ULe(app, Mul(BVi(65535, 64), LShr(Add(n, BVi(1, 64)), BVi(1, 64))))),
-		}
+		}...)
 	}
 }
 
